@@ -116,7 +116,7 @@ PROPS = {
         harnesses=[dict(name="C23", quick=12000, thorough=500000, quick_deadline_s=170, thorough_deadline_s=1500)],
         components=S_COMPONENTS, assumptions=COMMON_ASSUME + ["claim limited to the isolation invariant on every response under concurrent mixed-tenant traffic; the query input space is sampled, not enumerated", "strict enforcement is switched on through internal/tenant/tenanttest.MockEnforce"],
         technique="deterministic simulation: concurrent mixed-tenant Search/StreamSearch/List under seeded schedules over shards mixing tenants, with an isolation invariant evaluated on every response",
-        level_text="Strict tenant enforcement; 12 corpora whose compound shards mix repositories of tenants 1 and 2; 1-4 concurrent clients issue generated queries (repository filters, type:repo, content) as tenant 1, tenant 2, without tenant or as the system context. Every response is checked: no file match, list entry, ReposMap id, RepoURLs key/URL template or LineFragments key of a repository the caller does not own (nothing at all for a tenant-less caller); the caller's own results equal the per-shard reference restricted to its repositories; the system context sees everything.",
+        level_text="Strict tenant enforcement; 12 corpora (plus their variants in which tenants 1 and 2 each own a repository of the same name) whose compound shards mix repositories of tenants 1 and 2; match limits (ShardRepoMaxMatchCount, ShardMaxMatchCount, TotalMaxMatchCount) on a third of the calls; 1-4 concurrent clients issue generated queries (repository filters, type:repo, content) as tenant 1, tenant 2, without tenant or as the system context. Every response is checked: no file match (by repository id), list entry, ReposMap id, RepoURLs/LineFragments URL template of a repository the caller does not own (nothing at all for a tenant-less caller); the caller's own results equal the per-shard reference restricted to its repositories; the system context sees everything.",
         level_note="Samples schedules and queries on static shard sets.",
     ),
     "C25": dict(
